@@ -1,10 +1,21 @@
 #!/bin/bash
 # Build the framework from files on disk only (offline): Lean library, property theorems, drivers, Rust harness.
-set -e
+# Each target is built separately and failures are tolerated here: every `./check Cxx` rebuilds exactly what it
+# needs and reports a failed build itself.
 cd "$(dirname "$0")"
 export CARGO_NET_OFFLINE=true
 mkdir -p .work evidence replays
-( cd lean && lake build SR $(grep -o 'name = "drv_[a-z0-9_]*"' lakefile.toml | sed 's/name = "\(.*\)"/\1/') 2>&1 | grep -v "^warning\|^Note\|linter\|^$\|Hint\|\[apply\]" | tail -15 )
+ids=$(ls cfg | sed 's/\.json$//')
+( cd lean
+  for id in $ids; do
+    lo=$(echo $id | tr 'A-Z' 'a-z')
+    drv=$(python3 -c "import json;print(json.load(open('../cfg/$id.json')).get('driver','drv_$lo'))")
+    lake build SR.Props.$id $drv 2>&1 | grep -E "error|Build completed" | tail -3
+  done )
 cp /repo/Cargo.lock harness/Cargo.lock 2>/dev/null || true
-( cd harness && cargo build --release --offline --bins 2>&1 | tail -3 )
+( cd harness
+  for id in $ids; do
+    bins=$(python3 -c "import json;print(' '.join('--bin '+h['bin'] for h in json.load(open('../cfg/$id.json')).get('harness',[{'bin':'$id'.lower()}])))")
+    cargo build --release --offline $bins 2>&1 | grep -E "^error|Finished" | tail -2
+  done )
 echo "setup done"
